@@ -111,9 +111,11 @@ CLAIMED = {
              "span of the merged knots, every knot and both ends (exact for the polynomial and rational pieces involved); "
              "operands unchanged; different intervals -> ValueError. Model of +, -, *, /, scalar forms for polynomial operands "
              "(common refinement, change-of-basis matrices, product knot vector from continuity classes, collocation solve) tied "
-             "by exact differential execution. Theorems (Props/C08.v): the union vector refines both operands, different "
-             "intervals refused, change-of-basis matrices preserve the curve at every u, the product coefficients are the "
-             "least-squares solution of the collocation system (minimal, and exact whenever an exact solution exists).",
+             "by exact differential execution. Unbounded theorems (Props/C08.v): -A, s*A, A/s, A+s (vector s) are pointwise "
+             "for polynomial AND rational curves at every u; A+B, A-B, A/B and s/A are pointwise at every u given change-of-basis "
+             "matrices that preserve the operands (knot-insertion matrices do: C08_knot_insertion_refines); zero divisors refused; "
+             "the union vector refines both operands; different intervals refused; the product coefficients are the least-squares "
+             "solution of the collocation system (minimal, exact whenever an exact solution exists).",
         design="7/C08",
         technique="Coq proof (refinement, change of basis, certified collocation solve) + correspondence and exact pointwise oracle by vm_compute",
         note="PART: the for-all-u statement for products needs polynomial root counting (not formalised); rational operands "
